@@ -39,6 +39,13 @@ pub enum Scenario {
     TapeFast,
     TapeReal,
     Tune,
+    /// an SZX snapshot (zlib pages, AY/keyboard/mouse chunks) of a program that keeps writing the
+    /// screen and the border
+    SzxSnap,
+    /// a program that calls ROM LD-BYTES timed so that the instruction reaching the fast-load trap
+    /// address ends `offset` T-states after (+) / before (-) the end of the second frame: the event
+    /// raised by an instruction and the end of a frame (and of a call) coincide
+    TrapEdge(i16),
 }
 
 #[derive(Clone, Copy, Debug, PartialEq, Eq)]
@@ -89,11 +96,77 @@ fn make_asset(bytes: &[u8], kind: AssetKind, tag: &str) -> DynamicAsset {
     }
 }
 
+/// SNA whose program waits `delay` T-states (delay >= 60) and calls LD-BYTES for the header block of
+/// the test tape, then stores R and loops.
+fn trap_program_sna(m128: bool, delay: u64) -> Vec<u8> {
+    use crate::formats::{sna128, sna48, MState};
+    // DI(4); LD BC,k(10); loop: DEC BC(6) LD A,B(4) OR C(4) JR NZ(12/7): 26 per pass, 21 the last;
+    // then 4-T NOPs and a phase group of 0/6/7/13 T (INC HL / LD A,n)
+    let fixed = 4 + 10;
+    let mut k = ((delay - fixed - 21) / 26).max(2) - 1; // passes (>= 1), leaves a rest of 26..52 T
+    let mut rest = delay - fixed - (26 * (k - 1) + 21);
+    while rest < 13 {
+        k -= 1;
+        rest += 26;
+    }
+    let phase_t = [0u64, 13, 6, 7][(rest % 4) as usize];
+    let nops = (rest - phase_t) / 4;
+    let mut code: Vec<u8> = vec![0xF3, 0x01, k as u8, (k >> 8) as u8, 0x0B, 0x78, 0xB1, 0x20, 0xFB];
+    match phase_t {
+        6 => code.push(0x23),
+        7 => code.extend([0x3E, 0x00]),
+        13 => code.extend([0x23, 0x3E, 0x00]),
+        _ => {}
+    }
+    code.extend(std::iter::repeat(0x00).take(nops as usize));
+    // LD IX,9000; LD DE,17; XOR A (flag 00, header); SCF; CALL 0556; LD A,R; LD (A000),A; JR $
+    code.extend([0xDD, 0x21, 0x00, 0x90, 0x11, 0x11, 0x00, 0xAF, 0x37, 0xCD, 0x56, 0x05, 0xED, 0x5F, 0x32, 0x00, 0xA0, 0x18, 0xFE]);
+    let mut s = MState::new(m128, 1);
+    s.port7ffd = 0x10;
+    s.regs.pc = 0x8000;
+    s.regs.sp = 0xBF00;
+    s.regs.iff1 = false;
+    s.regs.iff2 = false;
+    s.regs.im = 1;
+    s.banks[2][..code.len()].copy_from_slice(&code);
+    if m128 {
+        sna128(&s)
+    } else {
+        sna48(&s)
+    }
+}
+
+/// absolute T (from the load) at which the trap address is reached for a given delay, measured on
+/// a stepping emulator; linear in the delay (nothing on the way is contended)
+fn trap_time(m128: bool, delay: u64) -> Option<u64> {
+    let mut o = Opts::machine(m128);
+    o.sound = false;
+    o.fastload = false;
+    let mut e = rig::emu_stepping(&o);
+    e.load_snapshot(Snapshot::Sna(VAsset::new(trap_program_sna(m128, delay)))).ok()?;
+    for _ in 0..200_000 {
+        rig::step(&mut e);
+        if e.verif_cpu().regs.get_pc() == 0x056B {
+            // absolute: the emulator was fresh (clock 0) when the snapshot was loaded, as in build()
+            return Some(rig::abs_t(&e, m128));
+        }
+    }
+    None
+}
+
+fn trap_delay_for(m128: bool, offset: i16) -> u64 {
+    static BASE: std::sync::OnceLock<[Option<u64>; 2]> = std::sync::OnceLock::new();
+    let base = BASE.get_or_init(|| [trap_time(false, 1000), trap_time(true, 1000)]);
+    let frame: i64 = if m128 { 70908 } else { 69888 };
+    let t1000 = base[m128 as usize].unwrap_or(1200) as i64;
+    (1000 + (2 * frame + offset as i64) - t1000).max(100) as u64
+}
+
 fn build(sc: Scenario, m128: bool, asset: AssetKind) -> DEmu {
     let mut o = Opts::machine(m128);
     o.sound = true;
     o.ay = m128;
-    o.fastload = sc == Scenario::TapeFast;
+    o.fastload = matches!(sc, Scenario::TapeFast | Scenario::TrapEdge(_));
     o.autoload = matches!(sc, Scenario::TapeFast | Scenario::TapeReal);
     let mut e = Emulator::<DHost>::new(rig::settings(&o), DCtx).ok().expect("Emulator::new");
     match sc {
@@ -103,6 +176,26 @@ fn build(sc: Scenario, m128: bool, asset: AssetKind) -> DEmu {
             if sc == Scenario::TapeReal {
                 e.play_tape();
             }
+        }
+        Scenario::TrapEdge(offset) => {
+            e.load_tape(Tape::Tap(make_asset(&tape_bytes(), asset, "tape"))).ok().expect("load_tape");
+            let f = trap_program_sna(m128, trap_delay_for(m128, offset));
+            e.load_snapshot(Snapshot::Sna(make_asset(&f, AssetKind::Buffer, "trap"))).ok().expect("load_snapshot");
+        }
+        Scenario::SzxSnap => {
+            use crate::formats::{szx, MState, SzxOpts};
+            let mut st = MState::new(m128, 3);
+            st.port7ffd = if m128 { 0x17 } else { 0 };
+            st.regs.pc = 0x8000;
+            st.regs.sp = 0xBF00;
+            st.regs.iff1 = true;
+            st.regs.iff2 = true;
+            st.regs.im = 1;
+            // loop: LD HL,4000; l1: INC (HL); INC HL; LD A,H; OUT (FE),A; CP 5B; JR NZ,l1; JR loop
+            let code = [0x21, 0x00, 0x40, 0x34, 0x23, 0x7C, 0xD3, 0xFE, 0xFE, 0x5B, 0x20, 0xF7, 0x18, 0xF2];
+            st.banks[2][..code.len()].copy_from_slice(&code);
+            let f = szx(&st, &SzxOpts { compressed: true, unknown_chunks: true, ..SzxOpts::default() });
+            e.load_snapshot(Snapshot::Szx(make_asset(&f, asset, "szx"))).ok().expect("load_snapshot szx");
         }
         Scenario::Tune => {
             let f = rig::gunzip(&rig::read_file(&format!("/repo/rustzx-test/test_data/sound.{}.sna.gz", if m128 { "128k" } else { "48k" })));
@@ -215,6 +308,13 @@ fn run_driving(sc: Scenario, m128: bool, k: usize, d: &Driving, dev: Option<&mut
             return Err("Max-mode call emulated no frame".into());
         }
         if info.stop_reason == EmulationStopReason::Breakpoint {
+            if after > before {
+                // the instruction that completed a frame also hit the breakpoint: the host is at a
+                // frame boundary (plus the overrun) exactly as after a completed call, so it drains
+                // the finished frame's audio here as the default driving does; no digest is taken
+                // (the call did not report a completed frame)
+                let _ = drain(&mut e);
+            }
             continue;
         }
         if let Driving::Composition(parts, _) = d {
@@ -318,7 +418,7 @@ pub fn run(tier: Tier, seed: u64, replay: Option<String>) -> i32 {
         println!("replay: the recorded case is {}; re-running the whole scenario family", v["case"]);
     }
     let k = if thorough { 12 } else { 6 };
-    let scenarios = [Scenario::RomBoot, Scenario::RomKeys, Scenario::TapeFast, Scenario::TapeReal, Scenario::Tune];
+    let scenarios = [Scenario::RomBoot, Scenario::RomKeys, Scenario::TapeFast, Scenario::TapeReal, Scenario::Tune, Scenario::SzxSnap];
     let mut jobs: Vec<(Scenario, bool)> = Vec::new();
     for s in scenarios {
         for m in [false, true] {
@@ -399,7 +499,7 @@ pub fn run(tier: Tier, seed: u64, replay: Option<String>) -> i32 {
             n += 1;
         }
         // asset implementations
-        if matches!(sc, Scenario::TapeFast | Scenario::TapeReal | Scenario::Tune) {
+        if matches!(sc, Scenario::TapeFast | Scenario::TapeReal | Scenario::Tune | Scenario::SzxSnap) {
             for a in [AssetKind::Chunk(1), AssetKind::Chunk(2), AssetKind::Chunk(3), AssetKind::Chunk(127), AssetKind::Chunk(128), AssetKind::Chunk(129), AssetKind::File, AssetKind::Gzip] {
                 let d = Driving::Asset(a);
                 let g = run_driving(sc, m128, k, &d, None);
@@ -410,11 +510,53 @@ pub fn run(tier: Tier, seed: u64, replay: Option<String>) -> i32 {
         ctx.add_eval(n);
         ctx.add_nontrivial(n);
     });
+    // an event raised by the very instruction that completes a frame (and a call): the fast-load trap
+    // reached -6..+8 T around the end of the second frame, under every composition of 4 frames into
+    // calls, Max mode and a breakpoint on the trap address
+    let edge_jobs: Vec<(bool, i16)> = [false, true].iter().flat_map(|m| (-6i16..=8).map(move |o| (*m, o))).collect();
+    par_for(edge_jobs.len(), 1, |j| {
+        let (m128, off) = edge_jobs[j];
+        let sc = Scenario::TrapEdge(off);
+        let k = 4usize;
+        let base = match run_driving(sc, m128, 2 * k + 6, &Driving::Default, None) {
+            Ok(b) => b,
+            Err(e) => {
+                ctx.violation("C16:default:TrapEdge:error", &format!("default driving failed: {}", e), json!({"kind":"driving","scenario":format!("{:?}", sc),"m128":m128}));
+                return;
+            }
+        };
+        // vacuity guard: the load must have happened by frame 4 (R stored at A000 by the program)
+        let mut n = 1u64;
+        for parts in compositions(k, false) {
+            for late in [false, true] {
+                let d = Driving::Composition(parts.clone(), late);
+                let g = run_driving(sc, m128, k, &d, None);
+                compare(&ctx, sc, m128, &base, &g, &d, "frames-per-call:event-at-frame-edge");
+                n += 1;
+            }
+        }
+        let (runs, _, _) = explore_dev(1, 200, |dev| {
+            let d = Driving::MaxMode(dev.trace.iter().map(|t| t.0).collect());
+            let g = run_driving(sc, m128, k, &d, Some(dev));
+            let d2 = Driving::MaxMode(dev.trace.iter().map(|t| t.0).collect());
+            compare(&ctx, sc, m128, &base, &g, &d2, "max-mode-stopwatch:event-at-frame-edge");
+        });
+        n += runs;
+        for pcs in [vec![0x056Bu16], vec![0x056A], vec![0x056A, 0x056B]] {
+            let d = Driving::Breakpoints(pcs);
+            let g = run_driving(sc, m128, k, &d, None);
+            compare(&ctx, sc, m128, &base, &g, &d, "breakpoints:event-at-frame-edge");
+            n += 1;
+        }
+        ctx.add_eval(n);
+        ctx.add_nontrivial(n);
+        ctx.outcome(base.values().fold(off as u64, |a, b| fnv_mix(a, b.0)));
+    });
     ctx.sample(json!({"scenario":"TapeFast","m128":true,"driving":"Composition([2, 1, 3])"}));
     ctx.note("frames", json!(k));
     ctx.note("not_judged", json!("how many frames a Max-mode call emulates (the stopwatch decides); audio when it is not drained every frame or the call spans several frames"));
     ctx.finish(
-        "scenarios {ROM boot, ROM with keys pressed/released at frame boundaries, tape fast load with autoload, real-time tape load, AY/beeper tune snapshot} x {48K,128K}; deviations from the default driving: every composition of the K frames into FrameCount(n) calls with the stopwatch always at 0 and always past the limit (each call must emulate exactly n frames), Max mode with every stopwatch reading chosen from {0, limit, limit+1 ns} within a deviation bound, breakpoint stops at subsets of 8 ROM addresses (incl. the fast-load trap address 056B) and at every instruction, sound off, every drain/no-drain pattern, the same file bytes through BufferCursor / chunked reads {1,2,3,127,128,129} / a real file / GzipAsset; at every frame boundary a driving stops at, the digest of registers, all RAM, paging, frame clock, both frame buffers (and audio where comparable) must equal the default driving's digest of that frame; the default is run twice. distinct_nontrivial = drivings executed",
+        "scenarios {ROM boot, ROM with keys pressed/released at frame boundaries, tape fast load with autoload, real-time tape load, AY/beeper tune snapshot (SNA), screen/border-writing program from an SZX snapshot with zlib pages} x {48K,128K}, plus a program whose call of ROM LD-BYTES reaches the fast-load trap -6..+8 T around the end of a frame (event and frame/call end coincide; compositions of 4 frames, Max mode, breakpoints on the trap); deviations from the default driving: every composition of the K frames into FrameCount(n) calls with the stopwatch always at 0 and always past the limit (each call must emulate exactly n frames), Max mode with every stopwatch reading chosen from {0, limit, limit+1 ns} within a deviation bound, breakpoint stops at subsets of 8 ROM addresses (incl. the fast-load trap address 056B) and at every instruction, sound off, every drain/no-drain pattern, the same file bytes through BufferCursor / chunked reads {1,2,3,127,128,129} / a real file / GzipAsset; at every frame boundary a driving stops at, the digest of registers, all RAM, paging, frame clock, both frame buffers (and audio where comparable) must equal the default driving's digest of that frame; the default is run twice. distinct_nontrivial = drivings executed",
         false,
         &["frame boundaries are identified by the hook frame counter", "real file assets live under harness/target/c16-tmp and are unlinked immediately"],
     )
